@@ -85,7 +85,7 @@ let verdict id name (args : arg list) impl =
             | IErr c -> OBad ("impl-exception-" ^ c)
             | ICrash _ -> OBad "crash") in
         if model = OBad "fuel" then Printf.sprintf "(%s skip nomodel)" id
-        else if obs_eq i model then Printf.sprintf "(%s agree %s corr-only)" id (match i with OErr -> "err" | _ -> "ok")
+        else if obs_eq i model || i = model then Printf.sprintf "(%s agree %s corr-only)" id (match i with OErr -> "err" | _ -> "ok")
         else Printf.sprintf "(%s modeldiff (impl %s) (spec -) (model %s))" id (string_of_obs i) (string_of_obs model)
     end
     else if spec = OBad "fuel" then Printf.sprintf "(%s skip unspecified)" id
